@@ -485,14 +485,37 @@ def jv(x):
     raise Unmodelled(f'value of type {type(x).__name__}')
 
 
-def pv(x):
+ARRAY_KEYS = ('U', 'u_matrix', 'tau_mat', 'tau_matrix', 'previous_tree')
+
+
+def arr_token(x):
+    """vine payload arrays (edge U, u-matrix, tau matrices) are opaque to the model (passed through unchanged): they are
+    abstracted to a token that is injective on (shape, float64 bit patterns); None and small arrays stay exact"""
+    import hashlib
+    if x is None:
+        return 'JNone'
+    a = np.asarray(x)
+    if a.dtype == object:
+        if a.shape == () and a.item() is None:
+            return 'JNone'
+        raise Unmodelled('object array payload')
+    a = np.ascontiguousarray(a, dtype=np.float64)
+    if a.size < 8:
+        return jv(a.tolist())
+    h = hashlib.sha1(a.tobytes()).hexdigest()[:20]
+    return f'(JStr "f64{list(a.shape)}:{h}")'.replace(', ', 'x')
+
+
+def pv(x, key=None):
     """Coq `pv` literal (vine dicts): jv payloads, Enum members, lists/dicts that contain Enum members"""
+    if key in ARRAY_KEYS:
+        return f'(PJ {arr_token(x)})'
     if isinstance(x, enum.Enum):
         return f'(PEnum {coq_str(type(x).__name__)} {coq_str(x.name)})'
     if not has_enum(x):
         return f'(PJ {jv(x)})'
     if isinstance(x, dict):
-        return '(PDict [' + '; '.join(f'({coq_str(k)}, {pv(v)})' for k, v in x.items()) + '])'
+        return '(PDict [' + '; '.join(f'({coq_str(k)}, {pv(v, k)})' for k, v in x.items()) + '])'
     if isinstance(x, (list, tuple)):
         return '(PList [' + '; '.join(pv(v) for v in x) + '])'
     raise Unmodelled(f'value of type {type(x).__name__} containing Enum members')
@@ -500,7 +523,7 @@ def pv(x):
 
 def pv_dict(d):
     """a vine / tree / edge dict itself is always a PDict (even when, unfitted, it holds no Enum member)"""
-    return '(PDict [' + '; '.join(f'({coq_str(k)}, {pv(v)})' for k, v in d.items()) + '])'
+    return '(PDict [' + '; '.join(f'({coq_str(k)}, {pv(v, k)})' for k, v in d.items()) + '])'
 
 
 KNOWN_SEEDS = [0, 1, 2, 3, 4, 5, 7, 9, 11, 42, 99, 123]
@@ -695,12 +718,9 @@ def alpha_edge(e):
     name = e.name.name if isinstance(e.name, enum.Enum) else e.name
     if not isinstance(name, str):
         raise Unmodelled('edge name')
-    U = None if e.U is None else np.asarray(e.U)
-    if U is not None and U.dtype == object:
-        U = None if U.shape == () and U.item() is None else U
     return (f'(mkE {int(e.index)} {int(e.L)} {int(e.R)} [{"; ".join(str(int(x)) for x in sorted(e.D))}] {ps} '
             f'[{"; ".join(str(int(x)) for x in e.neighbors)}] {coq_str(name)} {jv(e.theta)} {jv(e.tau)} '
-            f'{jv(U)} {jv(e.likelihood)})')
+            f'{arr_token(e.U)} {jv(e.likelihood)})')
 
 
 def alpha_tree(t, trees):
@@ -711,13 +731,13 @@ def alpha_tree(t, trees):
     if pt is None:
         prev = 'PrevNone'
     elif isinstance(pt, np.ndarray):
-        prev = f'(PrevArr {jv(pt)})'
+        prev = f'(PrevArr {arr_token(pt)})'
     else:
         idx = [i for i, x in enumerate(trees) if x is pt]
         if len(idx) != 1:
             raise Unmodelled('previous_tree is not an object of the vine\'s tree list')
         prev = f'(PrevObj {idx[0]})'
-    return (f'(mkTree {ty} (Some (mkTB {int(t.level)} {int(t.n_nodes)} {jv(t.tau_matrix)} {prev} '
+    return (f'(mkTree {ty} (Some (mkTB {int(t.level)} {int(t.n_nodes)} {arr_token(t.tau_matrix)} {prev} '
             f'[{"; ".join(alpha_edge(e) for e in t.edges)}])))')
 
 
@@ -728,7 +748,7 @@ def alpha_v(v, rs='real'):
     trees = '[' + '; '.join(alpha_tree(t, v.trees) for t in v.trees) + ']'
     unis = '[' + '; '.join(alpha_s(u) for u in v.unis) + ']'
     return (f'(mkVine {jv(v.vine_type)} {rst} (Some (mkVB {int(v.n_sample)} {int(v.n_var)} {int(v.depth)} '
-            f'{int(v.truncated)} {trees} {jv(v.tau_mat)} {jv(v.u_matrix)} {unis} {jv(v.columns)})))')
+            f'{int(v.truncated)} {trees} {arr_token(v.tau_mat)} {arr_token(v.u_matrix)} {unis} {jv(v.columns)})))')
 
 
 ERR = {'NotFittedError': 'NotFitted', 'ValueError': 'ValueErr', 'TypeError': 'TypeErr', 'AttributeError': 'AttributeErr',
@@ -865,3 +885,32 @@ def show_call(c):
         return f'raises {c[1]}'
     a = np.frombuffer(c[2], dtype=np.float64)
     return 'values ' + ', '.join(repr(float(x)) for x in a[:6]) + (' ...' if len(a) > 6 else '')
+
+
+class _NanEmptyNumpy:
+    """numpy proxy whose `empty` is NaN-filled: reads of cells that were never written (Tree.get_likelihood, F8/F10 of
+    C17) become deterministic NaNs instead of memory garbage"""
+
+    def __getattr__(self, name):
+        return getattr(np, name)
+
+    @staticmethod
+    def empty(shape, *a, **k):
+        return np.full(shape, np.nan)
+
+
+class nan_empty:
+    """context manager: inside copulas.multivariate.{tree,vine} `np.empty` returns NaN-filled arrays (restored on exit)"""
+
+    def __enter__(self):
+        import copulas.multivariate.tree as t
+        import copulas.multivariate.vine as v
+        self.mods = [(t, t.np), (v, v.np)]
+        for m, _ in self.mods:
+            m.np = _NanEmptyNumpy()
+        return self
+
+    def __exit__(self, *a):
+        for m, orig in self.mods:
+            m.np = orig
+        return False
